@@ -496,7 +496,8 @@ explore.register('c12', Spec())
 
 
 def run(ctx):
-    depth = 4 if ctx.quick else 6
+    import os
+    depth = int(os.environ.get('VERIF_C12_DEPTH', 4 if ctx.quick else 5))
     ctx.bound = {'history_depth': depth, 'initial_states': 3}
     acc = Acc()
     explore.bfs('c12', depth, acc)
